@@ -469,3 +469,10 @@ def spec_b64u_ok_text(s):
         return True
     except (_ba.Error, ValueError):
         return False
+
+
+def spec_b64u_decode(text):
+    """Octets of an (unpadded) base64url text (harness-side observation; never raises symbolically)."""
+    import base64 as _b
+    b = text.encode("ascii") if isinstance(text, str) else text
+    return _b.b64decode(b + b"=" * (-len(b) % 4), b"-_")
